@@ -183,6 +183,15 @@ def run(run):
 
     # ------------------------------------------------------------------ R3
     _tables(run, fw, D, V2)
+    # a transport failure must be classified (never escape unclassified): the classifier rules of C11 under the prefix X.
+    from . import c11
+    run.rule("X.R4", "Transport failures are classified before they can reach the protocol layer: the exchange in _send_command is guarded by a handler for "
+             "BaseException whose decision table maps every failure to HSM2DongleErrorResult / TimeoutError / CommError / HSM2DongleError (rules shared with C11).")
+    run.rid_prefix = "X."
+    try:
+        c11._classifier(run, E)
+    finally:
+        run.rid_prefix = ""
 
     # ------------------------------------------------------------------ R4
     run.rule("R4", "HSM2DongleErrorResult (a status word in the device's own error range) cannot escape "
